@@ -11,7 +11,7 @@ def context(seed):
     idx = pd.RangeIndex(3, 3 + n)
     y = pd.Series(50 + np.arange(n) * 0.5 + rng.rand(n), index=idx)
     X = pd.DataFrame({"x": np.arange(n) * 1.0 + rng.rand(n)}, index=idx)
-    return {"y": y, "X": X, "n": n}
+    return {"y": y, "X": X, "n": n, "variant": seed}
 
 
 def rows():
@@ -49,11 +49,18 @@ def rows():
         "multivariate_target": lambda c: pd.DataFrame({"a": c["y"], "b": c["y"]}),
         "array_target": lambda c: c["y"].values,
     }
+    def _as(v, vals, float_ok=False):
+        k = v % 3               # the same malformed horizon in every container a user may pass
+        if k == 0 or (float_ok and k == 2):
+            return list(vals)
+        if k == 1:
+            return np.array(vals)
+        return pd.Index(vals)
     bad_fh = {
-        "duplicate_horizon": lambda: [1, 2, 2],
-        "empty_horizon": lambda: [],
-        "fractional_horizon": lambda: [1, 2.5],
-        "wrongtype_horizon": lambda: "next week",
+        "duplicate_horizon": lambda v=0: _as(v, [1, 2, 2]),
+        "empty_horizon": lambda v=0: _as(v, []) if v % 3 != 2 else [],
+        "fractional_horizon": lambda v=0: _as(v, [1, 2.5], float_ok=True),
+        "wrongtype_horizon": lambda v=0: ["next week", (1, 2), {1: 2}][v % 3],
     }
     for name, mk in fcs().items():
         for fault, by in bad_y.items():
@@ -68,7 +75,7 @@ def rows():
         for fault, bf in bad_fh.items():
             def faulty(c, mk=mk, bf=bf):
                 f = mk()
-                return lambda: (f.fit(c["y"], fh=bf()), f)
+                return lambda: (f.fit(c["y"], fh=bf(c["variant"])), f)
 
             def control(c, mk=mk):
                 f = mk()
@@ -77,7 +84,7 @@ def rows():
 
             def faulty_p(c, mk=mk, bf=bf):
                 f = mk().fit(c["y"])
-                return lambda: (f.predict(bf()), f)
+                return lambda: (f.predict(bf(c["variant"])), f)
 
             def control_p(c, mk=mk):
                 f = mk().fit(c["y"])
@@ -116,6 +123,20 @@ def rows():
             f = mk()
             return lambda: (f.fit(c["y"], X=c["X"], fh=[1]), f)
         add(name + ".fit", "x_index_differs", faulty_x, control_x)
+
+    for fault, mkX in (("x_index_superset", lambda c: pd.concat([c["X"], pd.DataFrame({"x": [0.0, 1.0]}, index=[c["X"].index[0] - 1, c["X"].index[-1] + 1])]).sort_index()),
+                       ("x_index_differs", lambda c: c["X"].set_index(c["X"].index + 2)),
+                       ("x_index_shorter", lambda c: c["X"].iloc[1:])):
+        # a forecaster that ignores exogenous data must still refuse exogenous data that does not match the target
+        add("naive.fit", fault, (lambda c, mkX=mkX: (lambda f=NaiveForecaster(): (f.fit(c["y"], X=mkX(c), fh=[1]), f))),
+            (lambda c: (lambda f=NaiveForecaster(): (f.fit(c["y"], X=c["X"], fh=[1]), f))))
+
+    def faulty_xs(c):
+        f = fcs()["reduce_recursive"]()
+        extra = pd.DataFrame({"x": [0.0, 1.0]}, index=[c["X"].index[0] - 1, c["X"].index[-1] + 1])
+        Xb = pd.concat([c["X"], extra]).sort_index()            # covers y's index but is not equal to it
+        return lambda: (f.fit(c["y"], X=Xb, fh=[1]), f)
+    add("reduce_recursive.fit", "x_index_superset", faulty_xs, lambda c: control_xl(c))
 
     def faulty_xl(c):
         f = fcs()["reduce_recursive"]()
